@@ -2,6 +2,7 @@
 #pragma once
 #include "a_common.hpp"
 #include "a_static.hpp"
+#include "a_seg.hpp"
 #include "pgm/pgm_index.hpp"
 #include <cstring>
 
@@ -100,15 +101,21 @@ struct PgmClass {
         const int c0 = chunks_for(env, n);
 
         sim::begin_run(env);
+        sim::g_record_points = rc.prop == "C04"; // C04 needs the points of every level (hook H1)
         Index *idx = nullptr;
         try {
             idx = new Index(data.begin(), data.end());
         } catch (const std::exception &e) {
+            sim::g_record_points = false;
             sim::end_run();
             out.fail("ctor-exception", std::string("constructor threw on in-domain data: ") + e.what());
             out.trace_hash = tr.h;
             return out;
         }
+        sim::g_record_points = false;
+        std::vector<sim::PointRec> main_points;
+        std::vector<sim::WorkerRecord> worker_records;
+        if (rc.prop == "C04") { main_points = sim::g_main_points; worker_records = sim::g_worker_records; }
         note_env_stats(st);
         bool sim_active = c0 > 1 && sim::g_env_stats.max_team >= 2;
         if (sim_active) st.inc("sim_active_runs");
@@ -148,7 +155,40 @@ struct PgmClass {
         std::vector<K> queries = queries_for<K>(p, data);
         bool any_present = false, any_absent = false;
 
-        if (prop == "C07") {
+        if (prop == "C04") {
+            // every level of the recursive index: maximal segments w.r.t. the exact oracle (Epsilon at the bottom,
+            // EpsilonRecursive above), judged on the points the builder committed to
+            if constexpr (std::is_integral_v<K>) {
+                auto &segs = idx->segs();
+                auto &offs = idx->offs();
+                size_t main_pos = 0, region = 0;
+                size_t below = n;
+                for (size_t l = 0; l + 1 < offs.size() && out.ok; ++l) {
+                    size_t e = l == 0 ? E : R;
+                    int c = chunks_for(env, below);
+                    std::vector<sim::PointRec> pts;
+                    if (c > 1) { for (auto &wr : worker_records) if ((size_t) wr.region == region) pts.insert(pts.end(), wr.points.begin(), wr.points.end()); ++region; }
+                    else { // sequential level: its points are the next block of main-thread points (a block starts at y == 0)
+                        size_t b = main_pos;
+                        if (b < main_points.size()) { pts.push_back(main_points[b++]); while (b < main_points.size() && main_points[b].y != 0) pts.push_back(main_points[b++]); }
+                        main_pos = b;
+                    }
+                    if (pts.empty()) { out.fail("no-output", "level " + std::to_string(l) + ": no point recorded"); break; }
+                    size_t m = pts.back().y; // the closing point maps (last key + 1) to the number of keys of the level
+                    std::vector<long double> seg_keys;
+                    for (size_t i = offs[l]; i + 1 < offs[l + 1]; ++i) seg_keys.push_back((long double) segs[i].key);
+                    size_t base_off = l == 0 ? 0 : offs[l - 1];
+                    auto key_at = [&](size_t i) -> long double { return l == 0 ? (long double) data[i] : (long double) segs[base_off + i].key; };
+                    check_level_maximality(pts, seg_keys, m, c, e, key_at, (long double) sentinel_of<K>(), "level " + std::to_string(l), out, st);
+                    if (c > 1) st.inc("reach.chunked_level_checked");
+                    if (l > 0) st.inc("reach.upper_level_checked");
+                    // the level above indexes the segments of this level except a segment starting at the sentinel
+                    below = offs[l + 1] - offs[l] - 1;
+                    if (seg_keys.size() >= 2 && !(seg_keys.back() > seg_keys[seg_keys.size() - 2])) --below; // appended closing segment (O1)
+                    if (e == 0) break;
+                }
+            }
+        } else if (prop == "C07") {
             if constexpr (R > 0) {
                 if (!check_level_sizes(*idx, n, E, R, env, out, st)) { delete idx; out.trace_hash = tr.h; return out; }
                 std::vector<sim::LevelRec> recs;
